@@ -955,4 +955,82 @@ theorem ring_fixup_terminates_iff (size x : U32) :
 
 example : (fixupLoopT 7 20 20).isSome = true := by decide
 
+/-! ## 21. round 3: the bulk moves for every size; `int` results -/
+
+/-- what `ring_move_head` / `ring_move_tail` compute for EVERY size ≥ 1 and EVERY
+bias, inside and outside the region of the `_partial` theorems: the 32-bit sum,
+then reduced modulo `size`. -/
+theorem ring_move_exact_all_sizes (r : RingHead) (hs : 0 < r.size.toNat) (b : U32) :
+    (ringMoveHead r b).head.toNat = ((r.head.toNat + b.toNat) % 2 ^ 32) % r.size.toNat ∧
+    (ringMoveTail r b).tail.toNat = ((r.tail.toNat + b.toNat) % 2 ^ 32) % r.size.toNat :=
+  ⟨moveHead_head r hs b, moveTail_tail r hs b⟩
+
+/-- the region excluded by `ring_move_head_publishes_partial` is exactly
+`size > 2^31`: "every head move within `room` lands on `(head + bias) mod size`"
+holds for a size IFF `size ≤ 2^31` (for every larger size the empty ring at
+head = tail = size − 1 moved by `room = size − 1` is a counterexample). -/
+theorem ring_move_head_exact_iff (size : U32) (hs : 0 < size.toNat) :
+    (∀ head tail bias : U32, head.toNat < size.toNat → tail.toNat < size.toNat →
+        bias.toNat ≤ (ringRoom ⟨head, tail, size⟩).toNat →
+        (ringMoveHead ⟨head, tail, size⟩ bias).head.toNat = (head.toNat + bias.toNat) % size.toNat) ↔
+      size.toNat ≤ 2 ^ 31 := by
+  have hlt := size.isLt
+  constructor
+  · intro h
+    by_cases hS : size.toNat ≤ 2 ^ 31
+    · exact hS
+    · exfalso
+      have e1 : (size - 1).toNat = size.toNat - 1 := by bv_omega
+      have wf : (⟨size - 1, size - 1, size⟩ : RingHead).WF := by
+        constructor <;> (show (size - 1).toNat < size.toNat) <;> omega
+      have hroom : (ringRoom ⟨size - 1, size - 1, size⟩).toNat = size.toNat - 1 := by
+        rw [room_toNat _ wf]
+        show size.toNat - 1 - cntN size.toNat (size - 1).toNat (size - 1).toNat = size.toNat - 1
+        unfold cntN; simp
+      have := h (size - 1) (size - 1) (size - 1) (by omega) (by omega) (by rw [hroom, e1]; exact Nat.le_refl _)
+      rw [moveHead_head ⟨size - 1, size - 1, size⟩ hs (size - 1)] at this
+      simp only [e1] at this
+      have a : (size.toNat - 1 + (size.toNat - 1)) % 2 ^ 32 = 2 * size.toNat - 2 - 2 ^ 32 := by omega
+      have b : (size.toNat - 1 + (size.toNat - 1)) % size.toNat = size.toNat - 2 := by
+        rw [mod_wrap (by omega)]; split <;> omega
+      have c : (2 * size.toNat - 2 - 2 ^ 32) % size.toNat = 2 * size.toNat - 2 - 2 ^ 32 :=
+        Nat.mod_eq_of_lt (by omega)
+      rw [a, c, b] at this
+      omega
+  · intro hS head tail bias hh ht hb
+    have wf : (⟨head, tail, size⟩ : RingHead).WF := ⟨hh, ht⟩
+    rw [room_toNat _ wf] at hb
+    have hb' : bias.toNat ≤ size.toNat - 1 := by
+      have : (⟨head, tail, size⟩ : RingHead).size.toNat = size.toNat := rfl
+      omega
+    rw [moveHead_head ⟨head, tail, size⟩ hs bias]
+    show ((head.toNat + bias.toNat) % 2 ^ 32) % size.toNat = _
+    rw [Nat.mod_eq_of_lt (a := head.toNat + bias.toNat) (by omega)]
+
+example : (4 : U32).toNat ≤ 2 ^ 31 := by decide
+
+/-- `ring_write` / `ring_read` count in an `int` (`int ret`): on every ring of at
+most 2^31 slots the count fits (no signed overflow), whatever the data / length. -/
+theorem ring_bulk_return_fits_int (r : RingHead) (buf q d : List Byte) (n : Nat) (h : Abs r buf q)
+    (hS : r.size.toNat ≤ 2 ^ 31) :
+    (∃ r' buf' k, ringWrite r buf d = some (r', buf', k) ∧ k ≤ 2147483647) ∧
+    (∃ r' out, ringRead r buf n = some (r', out) ∧ out.length ≤ 2147483647) := by
+  have hq := abs_len_le h
+  have hp := abs_size_pos h
+  obtain ⟨r1, b1, e1, -⟩ := ring_write_appends r buf q d h
+  obtain ⟨r2, e2, -⟩ := ring_read_delivers r buf q n h
+  refine ⟨⟨r1, b1, _, e1, by omega⟩, ⟨r2, _, e2, ?_⟩⟩
+  have : (q.take n).length ≤ q.length := by simp; omega
+  omega
+
+/-- `tail_index()` / `head_index()` / `int idx = r.tail` (in `pop`) convert the
+`unsigned` index to `int`: the value is kept IFF it is below 2^31, which the
+index invariant gives on every ring of at most 2^31 slots; witness just outside. -/
+theorem ring_index_fits_int (r : RingHead) (h : r.WF) (hS : r.size.toNat ≤ 2 ^ 31) :
+    r.head.toInt = (r.head.toNat : Int) ∧ r.tail.toInt = (r.tail.toNat : Int) ∧
+    (0x80000000 : BitVec 32).toInt = -2147483648 := by
+  have h1 := h.1
+  have h2 := h.2
+  refine ⟨?_, ?_, by decide⟩ <;> rw [BitVec.toInt_eq_toNat_cond] <;> split <;> omega
+
 end Igris.C03
